@@ -42,7 +42,7 @@ ASSUMPTIONS = ['the geometry of every initial mesh is affine per element (verifi
                'agree with the fast observation (disagreement is a harness error)',
                'an operation that raises is a loud failure (counted in distinct_outcomes), not a violation of "never silently lose"',
                'slicing a hierarchical topology slices its base grid; groups of refined/trimmed topologies contain the descendants of the group']
-BUDGET_S = {'quick': 400, 'thorough': 3000}
+BUDGET_S = {'quick': 1500, 'thorough': 5400}
 
 TOL = 1e-9
 
@@ -424,6 +424,40 @@ class Outcome:
         self.loud = []            # strings
         self.notes = []
         self.checked = []         # names of the oracles that were evaluated
+        self.loud_msg = {}
+
+    def add_loud(self, where, e):
+        kind = '{}:{}'.format(where, type(e).__name__)
+        self.loud_msg[kind] = '{}: {}'.format(type(e).__name__, str(e)[:160])
+        cat = loud_category(where.split(':')[0], e)
+        if cat is None:
+            # an exception that is not one of the documented refusals: the property promises a value here
+            self.violations.append(('unexpected-exception:' + kind, 'raised {}'.format(self.loud_msg[kind])))
+        else:
+            self.loud.append(kind)
+            self.loud_cat = getattr(self, 'loud_cat', {})
+            self.loud_cat[kind] = cat
+
+
+def loud_category(stage, e):
+    '''the refusals nutils documents (or consistently implements) for operations outside the supported envelope; any
+    other exception is reported as a violation'''
+    msg = str(e)
+    if isinstance(e, NotImplementedError):
+        return 'not-implemented'
+    if isinstance(e, AttributeError) and "has no attribute 'connectivity'" in msg:
+        return 'disconnected-topology'          # take/compress/union results are documented as disconnected topologies
+    if isinstance(e, AttributeError) and "'MosaicReference' object has no attribute 'child_" in msg:
+        return 'refined-beyond-maxrefine'       # a trimmed element can be refined at most maxrefine times
+    if stage == 'slice' and isinstance(e, (AssertionError, ValueError, IndexError)):
+        return 'slice-rejected'                 # empty / stepped / unstructured slices
+    if stage == 'group' and isinstance(e, KeyError):
+        return 'group-empty'
+    if 'unsupported ischeme for EmptyLike' in msg:
+        return 'empty-reference'
+    if stage in ('take', 'compress', 'refined_by') and isinstance(e, (IndexError, ValueError)) and 'index' in msg:
+        return 'index-rejected'
+    return None
 
 
 def periodic_dims_of(ms):
@@ -462,7 +496,7 @@ def check_domain_extras(st2, oc, native=False, confirm=False):
         oc.notes.append('unobservable:boundary:{}'.format(e))
         elems_b = None
     except Exception as e:
-        oc.loud.append('boundary:{}:{}'.format(s, type(e).__name__))
+        oc.add_loud('boundary:{}'.format(s), e)
         elems_b = None
     if elems_b is not None:
         if any(pe.codim != 1 for pe in elems_b):
@@ -476,7 +510,7 @@ def check_domain_extras(st2, oc, native=False, confirm=False):
                     with quiet():
                         nat = OB.native_boundary(btopo, st2.geom)
                 except Exception as e:
-                    oc.loud.append('integrate-boundary:{}:{}'.format(s, type(e).__name__))
+                    oc.add_loud('integrate-boundary:{}'.format(s), e)
             if nat is not None:
                 oc.checked.append('native_boundary')
                 nf, nxn, ntot = nat
@@ -495,7 +529,7 @@ def check_domain_extras(st2, oc, native=False, confirm=False):
         oc.notes.append('unobservable:interfaces:{}'.format(e))
         elems_i = None
     except Exception as e:
-        oc.loud.append('interfaces:{}:{}'.format(s, type(e).__name__))
+        oc.add_loud('interfaces:{}'.format(s), e)
         elems_i = None
     if elems_i is not None and parents is not None:
         if any(pe.codim != 1 for pe in elems_i):
@@ -526,7 +560,7 @@ def trim_pair_oracle(st, op, oc, done=None):
             oc.notes.append('unobservable:{}:{}'.format(name, e))
             return
         except Exception as e:
-            oc.loud.append('{}:{}:{}'.format(name, s, type(e).__name__))
+            oc.add_loud('{}:{}'.format(name, s), e)
             return
         ms2 = M.trimmed(st.ms, a, c, sign)
         v, keys = compare_cells(ms2, elems)
@@ -567,7 +601,7 @@ def trim_pair_oracle(st, op, oc, done=None):
             oc.notes.append('unobservable:trimmed-group:{}'.format(e))
             return
         except Exception as e:
-            oc.loud.append('trimmed-group:{}:{}'.format(sig(topo2), type(e).__name__))
+            oc.add_loud('trimmed-group:{}'.format(sig(topo2)), e)
             return
         flux = numpy.zeros(st.ms.d)
         xn = 0.
@@ -606,7 +640,7 @@ def relational_trim(st, op, topo2, elems2, oc):
         oc.notes.append('unobservable:{}:{}'.format(other, e))
         return
     except Exception as e:
-        oc.loud.append('{}:{}:{}'.format(other, sig(st.topo), type(e).__name__))
+        oc.add_loud('{}:{}'.format(other, sig(st.topo)), e)
         return
     oc.notes.append('relational:trim-after-trim')
     parts = {}
@@ -644,7 +678,7 @@ def relational_trim(st, op, topo2, elems2, oc):
         oc.notes.append('unobservable:boundary:{}'.format(e))
         return
     except Exception as e:
-        oc.loud.append('boundary:{}:{}'.format(s2, type(e).__name__))
+        oc.add_loud('boundary:{}'.format(s2), e)
         return
     if elems2 and all(pe.codim == 1 for pe in elems_b):
         vol = sum(pe.vol for pe in elems2)
@@ -677,7 +711,7 @@ def transition(st, op, native=False, confirm=False):
                     return None, oc
             except M.ModelUndefined:
                 pass
-        oc.loud.append('{}:{}:{}'.format(name, s0, type(e).__name__))
+        oc.add_loud('{}:{}'.format(name, s0), e)
         return None, oc
     if name in ('trim', 'trimc') and st.has_trim:
         relational_trim(st, op, topo2, elems2, oc)
@@ -711,6 +745,8 @@ def transition(st, op, native=False, confirm=False):
         cells = {}
         try:
             for pe in elems2:
+                if pe.vol == 0 and pe.vol_ref == 0 and any(f.refname == 'EmptyLike' for f in pe.factors):
+                    continue
                 if pe.trimmed:
                     k, verts = hull_key(pe)
                     cell = G.Cell(None, verts=list(verts), k=pe.k)
@@ -742,7 +778,7 @@ def transition(st, op, native=False, confirm=False):
             with quiet():
                 nat = OB.native_measures(topo2, geom2)
         except Exception as e:
-            oc.loud.append('integrate:{}:{}'.format(s2, type(e).__name__))
+            oc.add_loud('integrate:{}'.format(s2), e)
         if nat is not None:
             oc.checked.append('native_measures')
             fast = numpy.array([pe.vol for pe in elems2])
@@ -817,9 +853,10 @@ def explore(st, tier, res, seen):
             res.count('loud_failures')
             res.distinct('distinct_outcomes', 'loud:' + l)
             res.distinct('loud_kinds', l)
-            LOUD.setdefault(l, {'mesh': st.mesh, 'ops': ops2})
+            LOUD.setdefault(l, {'mesh': st.mesh, 'ops': ops2, 'msg': oc.loud_msg.get(l)})
         for n in oc.notes:
             NOTES[n] = NOTES.get(n, 0) + 1
+            NOTE_EX.setdefault(n, {'mesh': st.mesh, 'ops': ops2})
             res.count('not_compared')
             res.distinct('distinct_outcomes', 'note:' + n.split(':')[0] + ':' + n.split(':')[1])
         for key, text in oc.violations:
@@ -846,6 +883,7 @@ def explore(st, tier, res, seen):
 
 LOUD = {}
 NOTES = {}
+NOTE_EX = {}
 
 NCHUNK = {'quick': 10, 'thorough': 24}
 
@@ -886,7 +924,7 @@ def run_shard(spec, tier, seed):
             res.count('loud_failures')
             res.distinct('distinct_outcomes', 'loud:' + l)
             res.distinct('loud_kinds', l)
-            LOUD.setdefault(l, {'mesh': st.mesh, 'ops': [op]})
+            LOUD.setdefault(l, {'mesh': st.mesh, 'ops': [op], 'msg': oc.loud_msg.get(l)})
         for n in oc.notes:
             NOTES[n] = NOTES.get(n, 0) + 1
             res.count('not_compared')
